@@ -136,6 +136,72 @@ def row(deco, arg):
 LIMIT_FOR_MESSAGES = 10
 
 
+def refusals():
+    """what the library refuses at run time for explicitly enabled contracts - a sync condition / capture that hands back a
+    coroutine - is refused in every interpreter mode, with the same exception"""
+    res = {}
+
+    async def acheck(v):
+        return v > 0
+
+    def inv_cond(self):
+        return acheck(self.x)
+
+    def attempt(label, fn):
+        try:
+            fn()
+            res[label] = "accepted"
+        except BaseException as e:  # noqa: B902
+            res[label] = type(e).__name__
+
+    def make_invariant(co):
+        @icontract.invariant(inv_cond, enabled=True, check_on=co)
+        class K:
+            def __init__(self, x):
+                self.x = x
+
+            def m(self):
+                return 1
+        return K
+
+    attempt("invariant-coroutine-at-construction", lambda: make_invariant(icontract.InvariantCheckEvent.CALL)(-1))
+    attempt("invariant-coroutine-setattr", lambda: make_invariant(icontract.InvariantCheckEvent.ALL)(-1))
+
+    def pre_cond(x):
+        return acheck(x)
+
+    @icontract.require(pre_cond, enabled=True)
+    def f(x):
+        return x
+
+    attempt("precondition-coroutine", lambda: f(-1))
+
+    def post_cond(result):
+        return acheck(result)
+
+    @icontract.ensure(post_cond, enabled=True)
+    def g(x):
+        return x
+
+    attempt("postcondition-coroutine", lambda: g(-1))
+
+    def cap(x):
+        return acheck(x)
+
+    def uses_old(OLD):
+        return True
+
+    @icontract.snapshot(cap, name="c", enabled=True)
+    @icontract.ensure(uses_old, enabled=True)
+    def h(x):
+        return x
+
+    attempt("capture-coroutine", lambda: h(-1))
+    import warnings
+    warnings.simplefilter("ignore", RuntimeWarning)
+    return res
+
+
 def broken_before_call():
     """explicitly enabled invariants; the object is broken without going through a checked operation; the next public
     operation must be stopped BEFORE its body in every interpreter mode"""
@@ -237,6 +303,7 @@ def broken_before_call():
     except BaseException as e:  # noqa: B902
         res = type(e).__name__
     out["shared_invariant_object"] = [res, list(ran)]
+    out["refusals"] = [refusals(), []]
     # the text of a violation of an explicitly enabled contract whose condition is a documented named function
     texts = []
     try:
